@@ -371,8 +371,11 @@ def gen_structures(repo: Path) -> list[tuple[str, str]]:
     INFO["structures"] = len(rows)
     INFO["structure_problems"] = problems
     files = []
-    CH = 60
+    NCH = 8   # fixed number of chunks: PV/Props/C16.lean has one group of theorems per chunk
+    CH = max(1, -(-len(rows) // NCH))
     chunks = [rows[i:i + CH] for i in range(0, len(rows), CH)]
+    while len(chunks) < NCH:
+        chunks.append([])
     idx = ["/-! GENERATED by tools/extract.py from structures_generated (runtime introspection) — do not edit. -/",
            "namespace PV.Gen", "",
            "structure StructRow where",
@@ -464,6 +467,8 @@ def gen_intrinsics(repo: Path) -> str:
             for v in src:
                 if isinstance(v, dict) and "name" in v:
                     instrs.append((v["name"], v))
+                elif isinstance(v, str):
+                    instrs.append((v, None))
     except Exception as e:
         LOST.append(f"webapp/src/ic10.json: {e}")
     INFO["ic10_json_instructions"] = len(instrs)
